@@ -5,7 +5,9 @@ from .. import core, pilgen as PG
 MODULES = ['DsdVerif.Props.C19']
 GEN_FILES = ['Grammars']
 THEOREM_NAMES = ['run_fuel_mono', 'input_rt', 'output_fluor_rt', 'input_fluor_rejected', 'reporter_rt', 'reporter_arity_rejected',
-                 'inputfanout_rt', 'seesaw_rt', 'wireconc_rt', 'negative_conc_rejected']
+                 'inputfanout_rt', 'seesaw_rt', 'wireconc_rt', 'negative_conc_rejected', 'input_ident_rt', 'output_wire_rt',
+                 'input_wire_f_rt', 'gateO_conc_rt', 'gateI_conc_rt', 'thO_conc_rt', 'wireconc_decimal_rt', 'seesawOR_rt', 'seesawAND_rt',
+                 'seesaw_missing_list_rejected', 'reporter_comment_rt', 'two_statements_rt']
 THEOREMS = ['Dsd.C19.' + t for t in THEOREM_NAMES]
 ASSUMPTIONS = [
     'pyparsing 3.3.2 is modelled by a hand-written interpreter (Model/Pyparsing.lean); the seesaw grammar term (Gen/Grammars.lean: '
@@ -15,10 +17,12 @@ ASSUMPTIONS = [
 ]
 MANIFEST = {
     'text': 'Partial. The seesaw grammar is regenerated from seesaw_parser.py into a Lean term interpreted by the model of pyparsing. '
-            'Proved for the regenerated grammar, for numbers of any length, brace lists of any length and any amount of blanks: input_rt, '
-            'output_fluor_rt, reporter_rt, inputfanout_rt, seesaw_rt, wireconc_rt, and the rejections input_fluor_rejected, '
-            'reporter_arity_rejected, negative_conc_rejected. Gate / threshold concentrations, seesawOR / seesawAND, identifiers in '
-            'INPUT/OUTPUT, comments, documents and files are NOT theorems: they are decided on the real parser by a reference renderer, '
+            'Proved for the regenerated grammar, for numbers of any length, brace lists of any length and any amount of blanks: every '
+            'statement kind - input_rt, input_ident_rt, input_wire_f_rt, output_fluor_rt, output_wire_rt, reporter_rt, inputfanout_rt, '
+            'seesaw_rt, seesawOR_rt, seesawAND_rt, wireconc_rt, wireconc_decimal_rt, gateO/gateI/thO_conc_rt -, a trailing comment without '
+            'final newline, two_statements_rt (document = concatenation for two statements), and the rejections input_fluor_rejected, '
+            'reporter_arity_rejected, negative_conc_rejected, seesaw_missing_list_rejected. Arbitrary layouts (blanks at every position), '
+            'scientific concentrations, thI, documents of more than two statements and files are NOT theorems: they are decided on the real parser by a reference renderer, '
             'and the model is compared with pyparsing on the same texts, the systematic negative family and random mutations.',
     'note': 'pyparsing semantics is modelled by hand and tied by differential testing only.',
     'technique': 'Lean 4 symbolic execution of a pyparsing interpreter over the grammar regenerated from source (induction on list length); correspondence check; reference renderer oracle',
